@@ -92,3 +92,283 @@ Proof.
         rewrite (rev_slice (sl_items s) a n) by lia; rewrite Ll; f_equal; try lia; f_equal; lia
     end.
 Qed.
+
+(** ---- databases ---- *)
+(** every stored sorted set is well formed and non-empty *)
+Definition db_zok (d : db) : Prop :=
+  forall k e z, get_entry d k = Some e -> e_val e = VZSet z -> zs_ok z /\ z <> [].
+(** the sorted set under a key: None = another type; a missing key is the empty set *)
+Definition zget (d : db) (key : bytes) : option zset :=
+  match get_entry d key with
+  | Some e => match e_val e with VZSet z => Some z | _ => None end
+  | None => Some []
+  end.
+
+Lemma get_put d k e k' : get_entry (put_entry d k e) k' = if beq k' k then Some e else get_entry d k'.
+Proof. unfold get_entry, put_entry. cbn [d_data]. apply alookup_aset. Qed.
+Lemma get_del d k k' : get_entry (del_entry d k) k' = if beq k' k then None else get_entry d k'.
+Proof. unfold get_entry, del_entry. cbn [d_data]. apply alookup_aremove. Qed.
+
+Lemma db_zok_put d key z x : db_zok d -> zs_ok z -> z <> [] ->
+  db_zok (put_entry d key {| e_val := VZSet z; e_exp := x |}).
+Proof.
+  intros D Z NE k e z' G V. rewrite get_put in G. destruct (beq k key).
+  - inversion G. subst e. cbn [e_val] in V. inversion V. subst. auto.
+  - eapply D; eauto.
+Qed.
+Lemma db_zok_del d key : db_zok d -> db_zok (del_entry d key).
+Proof.
+  intros D k e z G V. rewrite get_del in G. destruct (beq k key); [discriminate|]. eapply D; eauto.
+Qed.
+Lemma db_zok_empty : db_zok empty_db.
+Proof. intros k e z G. discriminate. Qed.
+
+Lemma zs_ok_nil : zs_ok [].
+Proof. repeat split; constructor. Qed.
+Lemma zs_place_nonnil e l : zs_place e l <> [].
+Proof. destruct l as [|x l]; cbn [zs_place]; [discriminate|]. destruct (elt_ltb x e); discriminate. Qed.
+Lemma zs_add_nonnil m v l : zs_add m v l <> [].
+Proof. apply zs_place_nonnil. Qed.
+
+Lemma sl_new_of_items : sl_new = sl_of_items [].
+Proof. reflexivity. Qed.
+
+(** one skip-list insertion on a stored value *)
+Lemma insert_stored z m sc : zs_ok z -> f_is_nan sc = false ->
+  sl_insert (z2sl z) m sc 0 = (zs_lookup m z, snd (sl_insert (z2sl z) m sc 0)) /\
+  sl2z (snd (sl_insert (z2sl z) m sc 0)) = zs_add m sc z.
+Proof.
+  intros Z Hs. pose proof (zs_ok_inv z Z) as I. rewrite z2sl_eq.
+  destruct (sl_insert_refines (sl_of_items z) m sc 0 I Hs) as [E1 E2].
+  rewrite sl_of_items_items in E1, E2. split; [|exact E1].
+  rewrite <- E2. destruct (sl_insert (sl_of_items z) m sc 0); reflexivity.
+Qed.
+Lemma remove_stored z m : zs_ok z ->
+  sl_remove (z2sl z) m = (zs_lookup m z, snd (sl_remove (z2sl z) m)) /\
+  sl2z (snd (sl_remove (z2sl z) m)) = zs_remove m z /\
+  sl_is_empty (snd (sl_remove (z2sl z) m)) = match zs_remove m z with [] => true | _ => false end.
+Proof.
+  intro Z. pose proof (zs_ok_inv z Z) as I. rewrite z2sl_eq.
+  destruct (sl_remove_refines (sl_of_items z) m I) as [E1 E2].
+  rewrite sl_of_items_items in E1, E2. split; [|split; [exact E1|]].
+  - rewrite <- E2. destruct (sl_remove (sl_of_items z) m); reflexivity.
+  - pose proof (sl_remove_inv (sl_of_items z) m I) as I'.
+    unfold sl_is_empty. rewrite (inv_length _ I'), <- len_items. unfold sl2z in E1. rewrite E1.
+    destruct (zs_remove m z); cbn; reflexivity.
+Qed.
+
+Lemma zget_some d key z : zget d key = Some z -> db_zok d -> zs_ok z.
+Proof.
+  unfold zget. intros G D. destruct (get_entry d key) as [e|] eqn:E.
+  - destruct (e_val e) eqn:V; try discriminate. inversion G. subst. apply (D key e z E V).
+  - inversion G. apply zs_ok_nil.
+Qed.
+
+(** ZADD of one pair at the engine: the stored set becomes [zs_add] of the old one *)
+Theorem eng_zadd_spec d key m sc : db_zok d -> f_is_nan sc = false ->
+  match zget d key with
+  | None => eng_zadd d key m sc = None
+  | Some z => exists d', eng_zadd d key m sc = Some (is_none (zs_lookup m z), d') /\
+                         zget d' key = Some (zs_add m sc z) /\
+                         (forall k', k' <> key -> get_entry d' k' = get_entry d k') /\ db_zok d'
+  end.
+Proof.
+  intros D Hs. pose proof (zget_some d key) as ZS. unfold zget in *. unfold eng_zadd.
+  destruct (get_entry d key) as [e|] eqn:E.
+  - destruct (e_val e) eqn:V; try reflexivity.
+    specialize (ZS z eq_refl D). destruct (insert_stored z m sc ZS Hs) as [E1 E2]. rewrite E1, E2.
+    eexists. split; [reflexivity|]. split; [|split].
+    + rewrite get_put, beq_refl. reflexivity.
+    + intros k' Hne. rewrite get_put. apply beq_false_ne in Hne. rewrite Hne. reflexivity.
+    + apply db_zok_put; [exact D|apply zs_add_ok; assumption|apply zs_add_nonnil].
+  - rewrite sl_new_of_items, <- z2sl_eq. destruct (insert_stored [] m sc zs_ok_nil Hs) as [E1 E2]. rewrite E1, E2.
+    eexists. split; [reflexivity|]. split; [|split].
+    + rewrite get_put, beq_refl. reflexivity.
+    + intros k' Hne. rewrite get_put. apply beq_false_ne in Hne. rewrite Hne. reflexivity.
+    + apply db_zok_put; [exact D|apply zs_add_ok; [apply zs_ok_nil|assumption]|apply zs_add_nonnil].
+Qed.
+
+(** ZREM of one member at the engine; removing the last member removes the key *)
+Theorem eng_zrem_spec d key m : db_zok d ->
+  match zget d key with
+  | None => eng_zrem d key m = None
+  | Some z => exists d', eng_zrem d key m = Some (negb (is_none (zs_lookup m z)), d') /\
+                         zget d' key = Some (zs_remove m z) /\
+                         (zs_remove m z = [] -> get_entry d' key = None) /\
+                         (forall k', k' <> key -> get_entry d' k' = get_entry d k') /\ db_zok d'
+  end.
+Proof.
+  intros D. pose proof (zget_some d key) as ZS. unfold zget in *. unfold eng_zrem.
+  destruct (get_entry d key) as [e|] eqn:E.
+  - destruct (e_val e) eqn:V; try reflexivity.
+    specialize (ZS z eq_refl D). destruct (remove_stored z m ZS) as (E1 & E2 & E3). rewrite E1, E3, E2.
+    destruct (zs_lookup m z) as [old|] eqn:L; cbn [is_none negb].
+    + destruct (zs_remove m z) as [|x r] eqn:R.
+      * eexists. split; [reflexivity|]. split; [|split; [|split]].
+        -- rewrite get_del, beq_refl. reflexivity.
+        -- intros _. rewrite get_del, beq_refl. reflexivity.
+        -- intros k' Hne. rewrite get_del. apply beq_false_ne in Hne. rewrite Hne. reflexivity.
+        -- apply db_zok_del, D.
+      * eexists. split; [reflexivity|]. split; [|split; [|split]].
+        -- rewrite get_put, beq_refl. reflexivity.
+        -- discriminate.
+        -- intros k' Hne. rewrite get_put. apply beq_false_ne in Hne. rewrite Hne. reflexivity.
+        -- apply db_zok_put; [exact D|rewrite <- R; apply zs_remove_ok, ZS|discriminate].
+    + eexists. split; [reflexivity|]. rewrite (zs_remove_absent m z L). split; [|split; [|split]].
+      * rewrite E, V. reflexivity.
+      * intro. subst z. destruct (D key e [] E V) as [_ NE]. congruence.
+      * reflexivity.
+      * exact D.
+  - eexists. split; [reflexivity|]. cbn [zs_remove]. split; [|split; [|split]].
+    + rewrite E. reflexivity.
+    + intros _. exact E.
+    + reflexivity.
+    + exact D.
+Qed.
+
+(** ---- every command preserves the database invariant ---- *)
+Definition oracle_nonan (oracle : option frame) : Prop :=
+  forall i b, oscore oracle i = Some b -> f_is_nan b = false.
+
+Lemma float_arg_oscore parts oracle i b : float_arg parts oracle i = Some b -> oscore oracle i = Some b.
+Proof. unfold float_arg. destruct (nth_error parts i) as [[]|]; try discriminate. auto. Qed.
+
+Lemma eng_zadd_zok d key m sc b d' : db_zok d -> f_is_nan sc = false ->
+  eng_zadd d key m sc = Some (b, d') -> db_zok d'.
+Proof.
+  intros D Hs E. pose proof (eng_zadd_spec d key m sc D Hs) as S.
+  destruct (zget d key); [|congruence]. destruct S as (d'' & E' & _ & _ & D'). rewrite E in E'. inversion E'. subst. exact D'.
+Qed.
+Lemma eng_zrem_zok d key m b d' : db_zok d -> eng_zrem d key m = Some (b, d') -> db_zok d'.
+Proof.
+  intros D E. pose proof (eng_zrem_spec d key m D) as S.
+  destruct (zget d key); [|congruence]. destruct S as (d'' & E' & _ & _ & _ & D'). rewrite E in E'. inversion E'. subst. exact D'.
+Qed.
+
+Lemma eng_zincrby_zok d key m inc sum r d' : db_zok d -> f_is_nan inc = false ->
+  (forall x, sum = Some x -> f_is_nan x = false) ->
+  eng_zincrby d key m inc sum = Some (r, d') -> db_zok d'.
+Proof.
+  intros D Hi Hs. unfold eng_zincrby. destruct (get_entry d key) as [e|] eqn:E.
+  - destruct (e_val e) eqn:V; try discriminate.
+    destruct (D key e z E V) as [Z NE].
+    set (ns := match sl_get_score (z2sl z) m with Some _ => sum | None => Some inc end).
+    assert (Hns : forall x, ns = Some x -> f_is_nan x = false).
+    { unfold ns. destruct (sl_get_score (z2sl z) m); [exact Hs|]. intros x Hx. inversion Hx. subst. exact Hi. }
+    destruct ns as [v|]; [|intro H; inversion H; subst; exact D].
+    destruct (insert_stored z m v Z (Hns v eq_refl)) as [E1 E2]. rewrite E1, E2.
+    intro H. inversion H. subst. apply db_zok_put; [exact D|apply zs_add_ok; auto|apply zs_add_nonnil].
+  - rewrite sl_new_of_items, <- z2sl_eq. destruct (insert_stored [] m inc zs_ok_nil Hi) as [E1 E2]. rewrite E1, E2.
+    intro H. inversion H. subst. apply db_zok_put; [exact D|apply zs_add_ok; [apply zs_ok_nil|assumption]|apply zs_add_nonnil].
+Qed.
+
+Lemma zadd_pairs_zok key parts oracle : oracle_nonan oracle ->
+  forall n rest, (length rest <= n)%nat -> forall d i added, db_zok d ->
+  db_zok (snd (zadd_pairs d key parts oracle i rest added)).
+Proof.
+  intros O. induction n as [|n IH]; intros rest Hl d i added D.
+  - destruct rest; [exact D|cbn in Hl; lia].
+  - destruct rest as [|sc [|mb rest']]; cbn [zadd_pairs snd]; try exact D.
+    destruct (float_arg parts oracle i) as [score|] eqn:F; [|exact D].
+    destruct mb; try exact D.
+    destruct (nan_refused && f_is_nan score); [exact D|].
+    destruct (eng_zadd d key b score) as [[isn d']|] eqn:EZ; [|exact D].
+    apply IH; [cbn [length] in Hl; lia|].
+    eapply eng_zadd_zok; eauto. apply (O i). apply float_arg_oscore in F. exact F.
+Qed.
+
+Lemma zrem_members_zok key : forall ms d removed, db_zok d -> db_zok (snd (zrem_members d key ms removed)).
+Proof.
+  induction ms as [|f ms IH]; intros d removed D; cbn [zrem_members snd]; [exact D|].
+  destruct f; try (apply IH; exact D).
+  destruct (eng_zrem d key b) as [[r d']|] eqn:E; [|exact D].
+  apply IH. eapply eng_zrem_zok; eauto.
+Qed.
+
+Lemma zpop_loop_zok key idx : forall fuel d acc l d', db_zok d ->
+  zpop_loop fuel d key idx acc = Some (l, d') -> db_zok d'.
+Proof.
+  induction fuel as [|fuel IH]; intros d acc l d' D; cbn [zpop_loop].
+  - intro H. inversion H. subst. exact D.
+  - destruct (eng_zrange d key idx idx false) as [[|[m sc] t]|]; try discriminate.
+    + intro H. inversion H. subst. exact D.
+    + destruct (eng_zrem d key m) as [[[] d1]|] eqn:E; try discriminate;
+      intro H; eapply IH; [eapply eng_zrem_zok; eauto|exact H|eapply eng_zrem_zok; eauto|exact H].
+Qed.
+
+Ltac ro := repeat match goal with |- context [match ?x with _ => _ end] => destruct x end; cbn [snd]; auto.
+
+Theorem exec_zsets_zok now d name parts oracle r d' :
+  db_zok d -> oracle_nonan oracle ->
+  exec_zsets now d name parts oracle = Some (r, d') -> db_zok d'.
+Proof.
+  intros D O. unfold exec_zsets.
+  repeat match goal with |- context [if beq name ?c then _ else _] => destruct (beq name c) end;
+  try discriminate; intro H; inversion H as [H']; clear H.
+  - (* ZADD *) unfold h_zadd in H'.
+    destruct ((nparts parts <? 4) || negb (nparts parts mod 2 =? 0)); [inversion H'; subst; exact D|].
+    destruct (nth_error parts 1) as [[]|]; try (inversion H'; subst; exact D).
+    pose proof (zadd_pairs_zok b parts oracle O (length (skipn 2 parts)) (skipn 2 parts) (le_n _) d 2%nat 0 D) as Z.
+    rewrite H' in Z. exact Z.
+  - (* ZREM *) unfold h_zrem in H'. destruct (nparts parts <? 3); [inversion H'; subst; exact D|].
+    destruct (nth_error parts 1) as [[]|]; try (inversion H'; subst; exact D).
+    pose proof (zrem_members_zok b (skipn 2 parts) d 0 D) as Z. rewrite H' in Z. exact Z.
+  - assert (snd (h_zscore d parts) = d) as E by (unfold h_zscore; ro). rewrite H' in E. cbn in E. subst. exact D.
+  - assert (snd (h_zcard d parts) = d) as E by (unfold h_zcard; ro). rewrite H' in E. cbn in E. subst. exact D.
+  - assert (snd (h_zrank false d parts) = d) as E by (unfold h_zrank; ro). rewrite H' in E. cbn in E. subst. exact D.
+  - assert (snd (h_zrank true d parts) = d) as E by (unfold h_zrank; ro). rewrite H' in E. cbn in E. subst. exact D.
+  - assert (snd (h_zrange false d parts) = d) as E by (unfold h_zrange; ro). rewrite H' in E. cbn in E. subst. exact D.
+  - assert (snd (h_zrange true d parts) = d) as E by (unfold h_zrange; ro). rewrite H' in E. cbn in E. subst. exact D.
+  - assert (snd (h_zrangebyscore false d parts oracle) = d) as E by (unfold h_zrangebyscore; ro). rewrite H' in E. cbn in E. subst. exact D.
+  - assert (snd (h_zrangebyscore true d parts oracle) = d) as E by (unfold h_zrangebyscore; ro). rewrite H' in E. cbn in E. subst. exact D.
+  - assert (snd (h_zcount d parts oracle) = d) as E by (unfold h_zcount; ro). rewrite H' in E. cbn in E. subst. exact D.
+  - (* ZINCRBY *) unfold h_zincrby in H'.
+    destruct (negb (nparts parts =? 4)); [inversion H'; subst; exact D|].
+    destruct (nth_arg parts 1) as [key|]; [|inversion H'; subst; exact D].
+    destruct (float_arg parts oracle 2) as [inc|] eqn:F; [|inversion H'; subst; exact D].
+    destruct (nth_arg parts 3) as [m|]; [|inversion H'; subst; exact D].
+    destruct (nan_refused && f_is_nan inc); [inversion H'; subst; exact D|].
+    destruct (eng_zincrby d key m inc (oscore oracle 4)) as [[[v|] d1]|] eqn:E; [| |inversion H'; subst; exact D].
+    + assert (db_zok d1) as D1.
+      { eapply eng_zincrby_zok; [exact D| |intros x Hx; apply (O 4%nat); exact Hx|exact E].
+        apply (O 2%nat). apply float_arg_oscore in F. exact F. }
+      destruct (nan_refused && f_is_nan v); inversion H'; subst; assumption.
+    + assert (db_zok d1) as D1.
+      { eapply eng_zincrby_zok; [exact D| |intros x Hx; apply (O 4%nat); exact Hx|exact E].
+        apply (O 2%nat). apply float_arg_oscore in F. exact F. }
+      inversion H'; subst; assumption.
+  - (* ZPOPMIN *) unfold h_zpop in H'.
+    destruct ((nparts parts <? 2) || (3 <? nparts parts)); [inversion H'; subst; exact D|].
+    destruct (nth_arg parts 1) as [key|]; [|inversion H'; subst; exact D].
+    destruct (if nparts parts =? 3 then match nth_arg parts 2 with Some c => parse_usize c | None => None end else Some 1) as [n|];
+      [|inversion H'; subst; exact D].
+    destruct (zpop_loop _ d key 0 []) as [[[|x l] d1]|] eqn:E; inversion H'; subst; try exact D;
+    eapply zpop_loop_zok; eauto.
+  - (* ZPOPMAX *) unfold h_zpop in H'.
+    destruct ((nparts parts <? 2) || (3 <? nparts parts)); [inversion H'; subst; exact D|].
+    destruct (nth_arg parts 1) as [key|]; [|inversion H'; subst; exact D].
+    destruct (if nparts parts =? 3 then match nth_arg parts 2 with Some c => parse_usize c | None => None end else Some 1) as [n|];
+      [|inversion H'; subst; exact D].
+    destruct (zpop_loop _ d key (-1) []) as [[[|x l] d1]|] eqn:E; inversion H'; subst; try exact D;
+    eapply zpop_loop_zok; eauto.
+Qed.
+
+(** lifted to every history of sorted-set commands *)
+Definition zcmd := (bytes * list frame * option frame)%type.
+Fixpoint run_zcmds (d : db) (cmds : list zcmd) : db :=
+  match cmds with
+  | [] => d
+  | (name, parts, oracle) :: r =>
+      match exec_zsets 0 d name parts oracle with
+      | Some (_, d') => run_zcmds d' r
+      | None => run_zcmds d r
+      end
+  end.
+Theorem run_zcmds_zok cmds : forall d, db_zok d ->
+  Forall (fun c : zcmd => oracle_nonan (snd c)) cmds -> db_zok (run_zcmds d cmds).
+Proof.
+  induction cmds as [|[[name parts] oracle] r IH]; intros d D F; cbn [run_zcmds]; [exact D|].
+  inversion F as [|? ? Hc Fr]; subst. cbn [snd] in Hc.
+  destruct (exec_zsets 0 d name parts oracle) as [[rp d']|] eqn:E; [|auto].
+  apply IH; [|exact Fr]. eapply exec_zsets_zok; eauto.
+Qed.
